@@ -157,7 +157,14 @@ def run(res, tier):
             if st and n.receiver() is not None and (A.strip_casts(n.receiver()).get('d') in holders or u in list(n.receiver().walk())):
                 fail_when_n = (st == 'err')
                 esc.add((blk.b, 0 if (pol == fail_when_n) else 1))
-        ok, path = P.must_follow(f, u, lro, escapes=esc)
+        # the restore loop has the same trip count as the release loop; "reaching the restore loop's test" stands for "the restore ran" (a loop that iterates zero times had nothing to restore)
+        targets = list(lro)
+        for l_ in lro:
+            for a_ in l_.ancestors():
+                if a_['k'] in ('ForStmt', 'WhileStmt') and a_.role('cond') is not None:
+                    targets.append(a_.role('cond'))
+                    break
+        ok, path = P.must_follow(f, u, targets, escapes=esc)
         res.ob('RESTORE', f.where(u), 'the read locks released for the upgrade are re-acquired on every path to a return', ok, function=f.q, key='RESTORE|%s' % f.q,
                how='restore at line %s' % lro[0].get('l'),
                message='LockReadWriteAux: a path from the release of the caller\'s read locks (line %s) reaches a return without LockReadOnly(): when the upgrade attempt fails (TryLockReadWrite, '
